@@ -29,6 +29,7 @@ EXPLANATION = (
     "the complement of `_stopping and failure.check(CancelledError)`. Scheduling sites are classified by the entry "
     "points that can reach them in the class call/registration graph."
     ' Also: start() returns the Deferred it created, and the function that fails the start Deferred does nothing afterwards (R4, finding F39).'
+    " A delayed-call handle that gates re-arming is cleared by its callback on every path; every Deferred handle stop() cancels is gone afterwards (cleared by stop() or by a both-outcomes / first failure-side stage of its chain)."
 )
 SHARED = [('C03', ['R2'], 'the processor is not invoked again once stop() has begun'),
           ('C14', ['R6'], 'a consumer started again after stop/shutdown runs with the configuration it was given'),
